@@ -15,6 +15,13 @@ use vcommon::Ctx;
 
 fn main() {
     let args: Vec<String> = std::env::args().skip(1).collect();
+    if std::env::var("VERIF_TRACE_LOG").is_ok() {
+        // development aid: the runtime's own tracing output on stderr (use with --replay)
+        tracing_subscriber::fmt()
+            .with_max_level(tracing::Level::TRACE)
+            .with_writer(std::io::stderr)
+            .init();
+    }
     let mut ctx = Ctx::new("C14", &args);
     ctx.rule(
         "op lists owning the schedule (remote/target writes <=n bytes, reads <=n bytes, poll system <=k, settle, advance) \
@@ -38,13 +45,13 @@ fn main() {
     ctx.assume("targets never fail or refuse a channel (a failed target legitimately loses commands); no store; the agent is not stopped during a case");
 
     let max_ops = ctx.pick(70, 160);
-    let n = ctx.pick(6_000, 400_000);
+    let n = ctx.pick(5_000, 400_000);
     ctx.prop("supply-lane", n, move || sup::arb_case(max_ops), sup::check);
-    let n = ctx.pick(6_000, 400_000);
+    let n = ctx.pick(3_000, 300_000);
     ctx.prop("command-lane", n, move || cmdlane::arb_case(max_ops), cmdlane::check);
-    let n = ctx.pick(6_000, 400_000);
+    let n = ctx.pick(5_000, 400_000);
     ctx.prop("agent-commands", n, move || sent::arb_case(max_ops, false), sent::check);
-    let n = ctx.pick(6_000, 400_000);
+    let n = ctx.pick(5_000, 400_000);
     ctx.prop("agent-commands-commander", n, move || sent::arb_case(max_ops, true), sent::check);
     ctx.finish();
 }
